@@ -42,7 +42,7 @@ where
     async fn from_body(body: Body) -> Result<Self::Content, Status> {
         let bytes = crate::utils::to_aligned(body.0)
             .await
-            .map_err(Status::internal)?;
+            .map_err(Status::connection)?;
 
         DataView::using(bytes).map_err(|_| Status::invalid())
     }
